@@ -203,9 +203,10 @@ func immConst(t immType, i instruction) expr.Const {
 	if !ok {
 		panic(fmt.Sprintf("immediate encoding %d has no value", t))
 	}
-	// Immediatealways contains at most 20 bits, so 32 bits is always
-	// enough.
-	return expr.ConstFromInt(imm)
+	// The immediate is sign extended to the widest register width
+	// supported. Narrower operations just cut the upper bytes, but wider
+	// operations would zero extend a narrower constant.
+	return expr.ConstFromInt(int64(imm))
 }
 
 func regLoad(r reg, i instruction, w expr.Width) expr.Expr {
